@@ -4,6 +4,7 @@ import (
 	"bufio"
 	"context"
 	"encoding/json"
+	"errors"
 	"github.com/failsafe-go/failsafe-go/cachepolicy"
 	"os"
 	"regexp"
@@ -37,6 +38,8 @@ type tEnv struct {
 	Dl    *int64 `json:"dl"`  // Start: the caller's context has a deadline at this instant (absent or -1: none)
 	Ck    string `json:"ck"`  // Start: cache key carried by the caller's context ("" or "none": none)
 }
+
+var errCause = errors.New("application-level cause of the cancellation")
 
 // gates for the "asyncCancel.mid" hook: ExecutionResult -> how long to hold the canceller
 var cancelGaps sync.Map
@@ -214,7 +217,9 @@ func runTScenario(t *testing.T, raw []byte) (lines []M, problem string) {
 					if e.Ck != "" && e.Ck != "none" {
 						base = context.WithValue(base, cachepolicy.CacheKey, e.Ck)
 					}
-					ctx, cancel := context.WithCancel(base)
+					// (cancelled WITH a cause: what the library reports is the context's error, never the application's cause)
+					cctx, ccancel := context.WithCancelCause(base)
+					ctx, cancel := context.Context(cctx), context.CancelFunc(func() { ccancel(errCause) })
 					if e.Dl != nil && *e.Dl >= 0 {
 						// the caller's context carries a deadline (a timer of the runtime fires it)
 						ctx, cancel = context.WithDeadline(ctx, rec.t0.Add(time.Duration(*e.Dl)*unit))
